@@ -4,6 +4,7 @@ import (
 	"fmt"
 	"os"
 	"path/filepath"
+	"regexp"
 	"runtime"
 	"sort"
 	"strings"
@@ -105,7 +106,7 @@ func c10Check(prop, tier string) (*Outcome, error) {
 	texts := append(append([]families.TextCase{}, t1...), t2...)
 	reqs := make([]engine.GenReq, len(texts))
 	for i, t := range texts {
-		reqs[i] = engine.GenReq{ID: t.ID, Text: t.Text, WantTree: true}
+		reqs[i] = engine.GenReq{ID: t.ID, Text: t.Text, WantTree: true, NoGen: !strings.Contains(t.Text, "import")}
 	}
 	resps := e.Pool.Generate(reqs)
 
@@ -197,6 +198,19 @@ func c10Check(prop, tier string) (*Outcome, error) {
 					cnt("accepted-undocumented")
 					continue
 				}
+				// ---- imports keep their path and alias all the way into the generated file
+				if len(rf.Imports) > 0 && r.Out != "" {
+					cnt("generated-imports-checked")
+					have := map[string]bool{}
+					for _, m := range importLineRe.FindAllStringSubmatch(r.Out, -1) {
+						have[m[1]+"|"+m[2]] = true
+					}
+					for _, im := range rf.Imports {
+						if !have[im.Alias+"|"+im.Path] {
+							report(t, "generated-imports", fmt.Sprintf("import %s %q in the generated file", im.Alias, im.Path), "missing (the file imports "+fmt.Sprint(importLineRe.FindAllString(r.Out, -1))+")")
+						}
+					}
+				}
 				// ---- oracle 1: meaning
 				if rf.Package != tf.Package || rf.Struct != tf.Struct || strings.TrimSpace(rf.State) != strings.TrimSpace(tf.State) {
 					report(t, "declarations", fmt.Sprintf("package %s type %s {%s}", rf.Package, rf.Struct, rf.State), fmt.Sprintf("package %s type %s {%s}", tf.Package, tf.Struct, tf.State))
@@ -261,6 +275,8 @@ func c10Check(prop, tier string) (*Outcome, error) {
 	out.Assumptions = []string{"internal/reader is written from docs/peg-file-syntax.md and the lexical rules of peg.peg; grey zones (upper-case escape letters, case-insensitive non-ASCII, mixed-case ranges in [[ ]], reversed ranges, empty literals/classes) are not compared", "meanings are compared on inputs up to 3 symbols"}
 	return out, nil
 }
+
+var importLineRe = regexp.MustCompile(`(?m)^\t(?:(\w+) )?"([^"]+)"$`)
 
 // treeWithoutLayout drops Space and Comment nodes (spelling variants add those).
 func treeWithoutLayout(dump string) string {
